@@ -1013,6 +1013,17 @@ func normalizeAmountNumber(s string) string {
 	return mantissa + exponent
 }
 
+// digitCount returns the number of decimal digits in s.
+func digitCount(s string) int {
+	n := 0
+	for i := 0; i < len(s); i++ {
+		if s[i] >= '0' && s[i] <= '9' {
+			n++
+		}
+	}
+	return n
+}
+
 func normalizeNumber(s string) string {
 	var dotCount, commaCount int
 	var lastDot, lastComma int
@@ -1033,7 +1044,8 @@ func normalizeNumber(s string) string {
 	}
 
 	if dotCount == 0 && commaCount == 1 {
-		if lastComma >= 1 && len(s)-lastComma-1 == 3 {
+		// a group mark has at most three digits before it: "1234,567" is a decimal
+		if lastComma >= 1 && len(s)-lastComma-1 == 3 && digitCount(s[:lastComma]) <= 3 {
 			hasNonZero := false
 			for i := 0; i < lastComma; i++ {
 				if s[i] != '0' && s[i] != '-' {
@@ -1049,7 +1061,7 @@ func normalizeNumber(s string) string {
 	}
 
 	if dotCount == 1 && commaCount == 0 {
-		if lastDot >= 1 && len(s)-lastDot-1 == 3 {
+		if lastDot >= 1 && len(s)-lastDot-1 == 3 && digitCount(s[:lastDot]) <= 3 {
 			hasNonZero := false
 			for i := 0; i < lastDot; i++ {
 				if s[i] != '0' && s[i] != '-' {
